@@ -8,7 +8,8 @@ TITLE = 'Synchronous client returns only the reply to its own request'
 QUICK_S = 40
 THOROUGH_S = 600
 RULE = ('one caller on one real synchronous client (TCP, UDP, serial rtu/ascii/binary, framer-over-TCP, TLS stub), 1-8 '
-        'transactions of all mixin request types plus diagnostics; fault-free config: the reference server answers every '
+        'transactions of all mixin request types plus, through client.execute(), the rest of the request classes (FC 07, 08 with '
+        'sub-functions 0-3/10-18/20/21, 0B, 0C, 11, 14, 15, 18, 2B/0E) with spec-conformant replies; fault-free config: the reference server answers every '
         'request (normal or exception), replies cut into pieces on stream transports, and the returned object must carry '
         'exactly the values sent; fault config: before/instead of the right reply the peer sends stale frames (previous '
         'transaction id, another unit, another function code), after earlier timed-out transactions, with the tid counter '
@@ -33,7 +34,7 @@ def generate(rng, tier, index):
     if kind == 'serial' and rng.random() < 0.15:
         kw['handle_local_echo'] = True
     faulty = rng.random() < 0.5
-    gen = cc.OpGen(rng, framing)
+    gen = cc.OpGen(rng, framing, extended=rng.choice([0.0, 0.0, 0.3, 0.7]))
     units = rng.choice([[1], [1], [17], [1, 2], [0], [255], [247, 3]])
     ops = []
     prev_reply = None
